@@ -164,6 +164,62 @@ def _round(ctx, j, rng, binary, rbin, ex, pool):
     return {"ref": ref, "execs": execs, "races": races, "batch": batch}
 
 
+REUSE_KEYS = ("ex1a", "ex3a", "rue1", "bulk", "pred", "mun", "myP")
+
+
+def _longer(line):
+    """the same line with a later EndDate (longer V/C/Y/M result files under the same names)"""
+    return re.sub(r"EndDate=(\d{4})(\d{4})", lambda m: "EndDate=%s%04d" % (m.group(1), int(m.group(2)) + 3), line)
+
+
+def _reuse(ctx, rng, binary, ex):
+    """runs into a USED result folder: (longer run, then the shorter run) across two sessions, inside one
+    session (two lines sharing resultfolder and ids, concurrency 1), and into a folder pre-filled with longer
+    files of the same names; reference = the shorter run into an empty folder"""
+    keys = list(REUSE_KEYS) if ctx.thorough else rng.sample(REUSE_KEYS[:4], 2) + ["pred", rng.choice(("mun", "myP"))]
+    pool = {k: B.VALID[k] for k in keys}
+    pool.update({k + "#long": _longer(B.VALID[k]) for k in keys})
+    longs = [k + "#long" for k in keys]
+    n = len(keys)
+    ref = B.run_batch(binary, ex, "reuse_ref", keys, pool, 1, 4)
+    refdig = [B.folder_digest(os.path.join(ref.root, "l%d" % i)) for i in range(n)]
+    out = {"keys": keys, "pool": pool, "ref": ref, "refdig": refdig, "modes": {}}
+    # across sessions
+    first = B.run_batch(binary, ex, "reuse_x", longs, pool, rng.choice((1, 3)), 4, batch_name="reuse_x_first")
+    longdig = [B.folder_digest(os.path.join(first.root, "l%d" % i)) for i in range(n)]
+    second = B.run_batch(binary, ex, "reuse_x", keys, pool, rng.choice((1, 3)), 4, keep_root=True)
+    out["modes"]["two-sessions"] = (second, [B.folder_digest(os.path.join(second.root, "l%d" % i)) for i in range(n)], [first, second])
+    out["long_really_longer"] = sum(1 for i in range(n) if longdig[i] != refdig[i])
+    # one session
+    both = B.run_batch(binary, ex, "reuse_s", longs + keys, pool, 1, 4, folders=list(range(n)) * 2)
+    out["modes"]["one-session"] = (both, [B.folder_digest(os.path.join(both.root, "l%d" % i)) for i in range(n)], [both])
+    # pre-filled folder: every file of the reference exists already, longer
+    root = os.path.join(ex, "reuse_p")
+    shutil.rmtree(root, ignore_errors=True)
+    for i in range(n):
+        src = os.path.join(ref.root, "l%d" % i)
+        dst = os.path.join(root, "l%d" % i)
+        os.makedirs(dst, exist_ok=True)
+        if os.path.isdir(src):
+            for fn in os.listdir(src):
+                with open(os.path.join(dst, fn), "wb") as f:
+                    f.write(open(os.path.join(src, fn), "rb").read() + b"\n# stale tail of an earlier, longer result file\n" * 40)
+    pre = B.run_batch(binary, ex, "reuse_p", keys, pool, rng.choice((1, 3)), 4, keep_root=True)
+    out["modes"]["prefilled"] = (pre, [B.folder_digest(os.path.join(pre.root, "l%d" % i)) for i in range(n)], [pre])
+    out["kinds"] = sorted({fn[:1] for d in refdig for fn in d})
+    for tag in ("reuse_ref", "reuse_x", "reuse_s", "reuse_p"):
+        shutil.rmtree(os.path.join(ex, tag), ignore_errors=True)
+    return out
+
+
+def _fout(ctx):
+    vh = ctx.harness()
+    d = os.path.join(ctx.work, "fout"); os.makedirs(d, exist_ok=True)
+    p = subprocess.run([vh, "c03fout", "-seed", str(ctx.seed), "-n", "1500" if ctx.thorough else "300", "-dir", d, "-repo", core.REPO],
+                       stdout=subprocess.PIPE, stderr=subprocess.PIPE, text=True, timeout=300)
+    return p.returncode, p.stdout, p.stderr
+
+
 def _run(ctx):
     if "rounds" in _cache:
         return _cache
@@ -179,7 +235,7 @@ def _run(ctx):
     if ctx.thorough:
         pool.update(B.LONG)
     rounds = [_round(ctx, j, rng, binary, rbin, ex, pool) for j in range(6 if ctx.thorough else 1)]
-    _cache.update(rounds=rounds, pool=pool, ex=ex)
+    _cache.update(rounds=rounds, pool=pool, ex=ex, reuse=_reuse(ctx, rng, binary, ex), fout=_fout(ctx))
     return _cache
 
 
@@ -219,6 +275,43 @@ def correspond(ctx):
         if j == 0:
             c.samples = ["%s: c=%d GOMAXPROCS=%d lines=%s -> summary %s count %s started %d (%.1fs)" %
                          (e.tag, e.c, e.gmp, e.lines_opt, e.summary, e.count, len(e.ran), e.wall) for e in allx[:6]]
+    # ---- result-file writer: DefaultFoutGenerator against OutFileModel; append argument of every open site
+    rc, out, err = r["fout"]
+    if rc != 0:
+        c.mismatches.append({"kind": "fout-harness", "stderr": err[-800:]})
+    hb = lambda h: "[" + "; ".join(str(b) for b in (bytes.fromhex(h) if h != "e" else b"")) + "]"
+    fcs = []
+    for line in out.split("\n"):
+        t = line.split()
+        if t and t[0] == "F":
+            old = "None" if t[1] == "-" else "(Some %s)" % hb(t[1])
+            chunks = "[]" if t[3] == "-" else "[" + "; ".join(hb(x) for x in t[3].split(",")) + "]"
+            fcs.append(("(FCase %s %s %s %s)" % (old, "true" if t[2] == "1" else "false", chunks, hb(t[4])), line))
+        elif t and t[0] == "OPEN":
+            ok = (t[3] == "false") or (t[1] == "OpenResultFile" and t[3] == "append")
+            if not ok:
+                c.mismatches.append({"kind": "open-sites", "what": "a result file is opened with an append argument other than false "
+                                     "(OutFileModel: every result file of a run is opened truncating)", "site": line})
+    if fcs:
+        text = "\n".join(["From stdpp Require Import gmap.", "From Hermes Require Import OutFileModel C03Corr.", "Local Open Scope Z_scope.",
+                          "Definition cases : list fcase := [\n  %s]." % ";\n  ".join(x[0] for x in fcs),
+                          "Definition FM := Eval vm_compute in fmismatches 0 cases.", "Print FM."]) + "\n"
+        rc2, o = ctx.coq_eval("Cases_C03_fout", text, timeout=300)
+        m = re.search(r"FM\s*=\s*(.*?)\s*:\s*list Z", o, re.S)
+        if rc2 != 0 or not m:
+            c.mismatches.append({"kind": "coq-eval", "shard": "Cases_C03_fout", "output": o[-1500:]})
+        elif m.group(1).strip() != "[]":
+            idx = [int(x) for x in re.findall(r"\d+", m.group(1))]
+            c.mismatches.append({"kind": "fout", "what": "OutFileModel (not append => truncate) and hermes.DefaultFoutGenerator differ: "
+                                 "F <old content> <append> <chunks> <file afterwards> (hex)", "cases": [fcs[i][1] for i in idx[:8]]})
+    c.cases += len(fcs); c.nontrivial += len({x[0] for x in fcs}); c.dist["fout_cases"] = len(fcs)
+    ru = r["reuse"]
+    for mode, (e, digs, execs) in ru["modes"].items():
+        c.cases += len(execs); c.nontrivial += len(execs)
+        for x in execs:
+            if x.died():
+                c.mismatches.append({"kind": "execution", "tag": x.tag, "what": "process did not finish normally", "rc": x.rc, "stderr": x.stderr[-600:]})
+    c.dist["reuse_lines"] = len(ru["keys"]); c.dist["reuse_file_kinds"] = "".join(ru["kinds"])
     if "race_build_error" in r:
         c.notes.append("race build failed: " + r["race_build_error"])
         if ctx.thorough:
@@ -270,6 +363,30 @@ def oracle(ctx, search):
                     fails.append(Fail(key="nondeterminism:%s:%s" % (k, diff[0][:1] if diff else "?"),
                                       what="result files differ from the concurrency-1 reference for the same batch line",
                                       line=pool[k], files=diff[:6], concurrency=e.c, gomaxprocs=e.gmp, tag=e.tag, replay=replay))
+    ru = r["reuse"]
+    if ru["ref"].died():
+        fails.append(Fail(key="reference-run:died", what="reference execution of the re-use stage did not finish", stderr=ru["ref"].stderr[-600:]))
+    else:
+        for mode, (e, digs, execs) in ru["modes"].items():
+            if any(x.died() for x in execs):
+                fails.append(Fail(key="execution-died:reuse:%s" % mode, what="batch execution did not finish normally", stderr=e.stderr[-600:]))
+                continue
+            for i, k in enumerate(ru["keys"]):
+                compared += 1
+                if digs[i] != ru["refdig"][i]:
+                    diff = sorted(f for f in set(digs[i]) | set(ru["refdig"][i]) if digs[i].get(f) != ru["refdig"][i].get(f))
+                    how = {"two-sessions": "session 1: the line with the later EndDate; session 2: the line itself, same resultfolder",
+                           "one-session": "one batch at -concurrent 1: the line with the later EndDate, then the line itself, same resultfolder",
+                           "prefilled": "the result folder already holds files of the same names that are longer (result of the line + extra lines)"}[mode]
+                    fails.append(Fail(key="stale-result:%s:%s:%s" % (mode, k, diff[0][:1] if diff else "?"),
+                                      what="result files written into a USED result folder differ from the same run into an empty folder",
+                                      files=diff[:6], how=how,
+                                      replay="cd <copy of /repo/examples>; reference: `%s resultfolder=A/l0` into an empty folder; then %s: "
+                                             "first `%s resultfolder=B/l0`, then `%s resultfolder=B/l0`; compare A/l0 with B/l0 byte for byte "
+                                             "(hermes2go -module batch -concurrent 1 -batch <file>)" % (
+                                                 ru["pool"][k], how, ru["pool"][k + "#long"], ru["pool"][k])))
+    ctx.extra["reuse_modes"] = list(ru["modes"]); ctx.extra["reuse_file_kinds"] = ru["kinds"]
+    ctx.extra["reuse_longer_first_runs_differ"] = ru.get("long_really_longer")
     ctx.extra["result_folders_compared"] = compared
     ctx.extra["race_detector_executions"] = nrace
     ctx.extra["race_detector_reports"] = nreports
